@@ -581,13 +581,21 @@ class CallTap(object):
 
 
 class WireCF(object):
-    """Crazyflie-like object carrying the REAL Commander and HighLevelCommander over a recording send_packet"""
+    """Crazyflie-like object carrying the REAL Commander and HighLevelCommander over a link that behaves like the real
+    drivers (RadioDriver/UsbDriver.send_packet put the packet OBJECT into an out queue; their thread reads header and data
+    later): send_packet keeps the REFERENCE, the simulated radio serialises port/channel/data only when it transmits.
+    `radio` = hold schedule: after the i-th send the radio may stay radio[i % len] packets behind (0 = transmit at once).
+      wire[i] = snapshot taken at send time  (what was commanded),   air[i] = what was serialised at transmit time."""
 
-    def __init__(self, sim, version):
+    def __init__(self, sim, version, radio=()):
         from cflib.crazyflie.commander import Commander
         from cflib.crazyflie.high_level_commander import HighLevelCommander
         self._sim = sim
         self.wire = []
+        self.air = []
+        self.pending = []
+        self.radio = [int(x) for x in (radio or [])]
+        self.nsend = 0
         self.calls = []
         self.platform = _Platform(version)
         self.commander = CallTap(Commander(self), sim, self.calls, self.wire, 'c.')
@@ -599,6 +607,15 @@ class WireCF(object):
 
     def send_packet(self, pk, *a, **kw):
         self.wire.append((self._sim.now, int(pk.port), int(pk.channel), bytes(pk.data)))
+        self.pending.append(pk)
+        hold = self.radio[self.nsend % len(self.radio)] if self.radio else 0
+        self.nsend += 1
+        self.transmit(hold)
+
+    def transmit(self, keep=0):
+        while len(self.pending) > keep:
+            pk = self.pending.pop(0)
+            self.air.append((self._sim.now, int(pk.port), int(pk.channel), bytes(pk.data)))
 
 
 def run_wire(case):
@@ -618,7 +635,7 @@ def run_wire(case):
         try:
             with warnings.catch_warnings():
                 warnings.simplefilter('ignore')
-                cf = WireCF(sim, case.get('version', 10))
+                cf = WireCF(sim, case.get('version', 10), case.get('radio'))
                 flights = []
                 helpers = {}
                 for fl in case['flights']:
@@ -644,7 +661,7 @@ def run_wire(case):
                     try:
                         with obj:
                             entered = True
-                            marks.append((len(cf.wire), bool(obj._is_flying)))
+                            marks.append((len(cf.wire), bool(obj._is_flying), sim.now))
                             for op in fl['ops']:
                                 if op[0] == 'raise':
                                     raise UserError()
@@ -652,7 +669,7 @@ def run_wire(case):
                                     sim.sleep(sim.num(op[1]))
                                 else:
                                     _call(obj, op[0], op[1:], sim)
-                                marks.append((len(cf.wire), bool(obj._is_flying)))
+                                marks.append((len(cf.wire), bool(obj._is_flying), sim.now))
                     except SimHang:
                         raise
                     except BaseException as e:  # noqa
@@ -661,12 +678,14 @@ def run_wire(case):
                     flying_after = bool(obj._is_flying)
                     alive_after = len(sim.alive())
                     sim.sleep(sim.num(fl.get('epilogue', '0.5')))      # time passes between flights
+                    cf.transmit(0)                                    # ... and the radio catches up
                     flights.append({'kind': fl['kind'], 'entered': entered, 'exc': classify_exc(exc), 'w0': w0, 'w_exit': w_exit,
                                     'w1': len(cf.wire), 'c0': c0, 'c1': len(cf.calls), 'marks': marks,
                                     'flying_after': flying_after, 'alive_after': alive_after})
                     if not entered or alive_after:
                         break       # a surviving thread would be attributed to the next flight
-                return {'flights': flights, 'wire': cf.wire[:], 'calls': [list(c) for c in cf.calls],
+                cf.transmit(0)
+                return {'flights': flights, 'wire': cf.wire[:], 'air': cf.air[:], 'calls': [list(c) for c in cf.calls],
                         'period': M._SetPointThread.UPDATE_PERIOD, 'version': case.get('version', 10)}
         finally:
             try:
